@@ -99,6 +99,7 @@ fn main() {
                 "C05" | "C06" | "C07" | "C08" => driver::run_hist_check(&prop, &tier, seed, workers, runs),
                 "C09" => driver::run_c09_check(&tier, seed, workers, runs),
                 "C10" => driver::run_c10_check(&tier, seed, workers, runs),
+                "C19" => driver::run_c19_check(&tier, seed, workers, runs),
                 _ => {
                     eprintln!("unknown property {}", prop);
                     2
